@@ -267,7 +267,7 @@ func (t *SessionTeardown) cleanup(session *Session, cause TerminateCause) error 
 		session.mu.Unlock()
 		return nil
 	}
-	session.tornDown = true
+	acctStopped := session.acctStopped
 	session.mu.Unlock()
 
 	ctx, cancel := context.WithTimeout(context.Background(), t.config.CleanupTimeout)
@@ -277,20 +277,36 @@ func (t *SessionTeardown) cleanup(session *Session, cause TerminateCause) error 
 	stats := t.gatherStats(session)
 
 	// 1. Update eBPF maps (remove subscriber entry)
+	var fastPathErr error
 	if t.updateEBPFMaps != nil {
 		if err := t.updateEBPFMaps(session, true); err != nil {
 			t.logger.Error("Failed to update eBPF maps",
 				zap.Uint16("session_id", session.ID),
 				zap.Error(err),
 			)
-			// Continue cleanup even if eBPF update fails
+			fastPathErr = err
 		}
 	}
 
-	// 2. Send RADIUS Accounting-Stop
-	if t.radiusClient != nil && session.Authenticated {
+	// 2. Send RADIUS Accounting-Stop (once, also when the teardown is resumed)
+	if t.radiusClient != nil && session.Authenticated && !acctStopped {
 		t.sendAccountingStop(ctx, session, cause, stats)
+		session.mu.Lock()
+		session.acctStopped = true
+		session.mu.Unlock()
 	}
+
+	if fastPathErr != nil {
+		// The data plane still forwards for this session: its address must not
+		// be handed to anybody else and the session stays in the table, so that
+		// the next termination by any path (client PADT again, admin action,
+		// TerminateAll) removes the entry and finishes the teardown.
+		return fmt.Errorf("failed to remove session %d from eBPF maps: %w", session.ID, fastPathErr)
+	}
+
+	session.mu.Lock()
+	session.tornDown = true
+	session.mu.Unlock()
 
 	// 3. Release IP address back to pool
 	if t.ipPool != nil && session.ClientIP != nil {
